@@ -352,6 +352,20 @@ def save_to_yaml_file(args, log, yaml_parser, yaml_data, backup_file):
                     "Indeterminate assertion error encountered while"
                     + " attempting to write updated data to {}.  The original"
                     + " file content was restored.").format(args.yaml_file), 3)
+            except Exception:
+                # Any other failure of the dumper (a value it cannot
+                # represent, for example) must not cost the user the original
+                # file:  put its content back before the error surfaces.
+                yaml_dump.close()
+                tmphnd.seek(0)
+                with open(args.yaml_file, 'wb') as outhnd:
+                    copyfileobj(tmphnd, outhnd)
+
+                # No sense in preserving a backup file with no changes
+                if args.backup:
+                    remove(backup_file)
+
+                raise
 
 def docroot_is_flow(yaml_data):
     """Determine whether a document root is in flow (JSON) style."""
